@@ -42,6 +42,8 @@ def concrete_shape_violation(o):
     ks = [hx(k) for k, _ in o['quals']]
     if ks != sorted(ks) or len(set(ks)) != len(ks):
         return 'qualifier keys are not in strictly ascending order in %r' % got
+    if any(hx(v) == b'' for _, v in o['quals']):
+        return 'an absent part is printed: %r has a qualifier with an empty value' % got
     return None
 
 
@@ -271,6 +273,9 @@ def build_family(tier, checks, kinds=('String', 'Purl'), name_prefix=''):
             add(T, ty, 'n', MANY + [('without_qualifier', ('hole', 'h', 1)), ('with_qualifier', ('hole', 'g', 1), 'x')])
             add(T, ty, 'n', MANY[:3] + [('without_qualifier', ('hole', 'h', 1)), ('with_qualifier', ('hole', 'g', 1), 'x'), ('without_qualifier', ('hole', 'f', 1))])
             add(T, ty, 'n', MANY + [('with_qualifier', ('hole', 'h', 1), ('hole', 'g', 1))])
+            # several empty-valued qualifiers next to each other (each must be dropped)
+            add(T, ty, 'n', [('with_qualifier', 'a', ''), ('with_qualifier', 'b', ''), ('with_qualifier', 'c', ('hole', 'h', 1)), ('with_qualifier', 'd', ''), ('with_qualifier', 'e', '')])
+            add(T, ty, 'n', MANY + [('with_qualifier', 'a', ''), ('with_qualifier', 'b', ''), ('with_qualifier', ('hole', 'h', 1), '')])
             # structure characters only, longer holes: runs of separators and dot segments through the builder
             for n in ((4, 5, 6) if th else (4, 5)):
                 add(T, ty, 'n', [('with_namespace', ('hole', 'h', n, b'/a'))])
